@@ -117,6 +117,14 @@ type Enc struct {
 	assumedGlobals []string
 	nquant         int
 	localAllocs    []*localAlloc
+	sliceRoots     map[ssa.Value]sliceRoot
+	boundFactDone  map[string]bool
+}
+
+// sliceRoot: v is root[shift:...] (a chain of reslices); cells of v are addressed through root
+type sliceRoot struct {
+	root  string // SMT term of the root slice
+	shift string // index of v[0] in root
 }
 
 type localAlloc struct {
@@ -209,6 +217,24 @@ func (e *Enc) obligGuarded(kind, name, guard, goal, src string, cl *Clause) *Obl
 	return o
 }
 
+// obligSplit creates one obligation per incoming edge of the current block when the block is a
+// join (the disjunction of the parts is the original obligation): smaller queries, and the failing
+// path is named.
+func (e *Enc) obligSplit(kind, name, guard, goal, src string, cl *Clause) {
+	b := e.curBlock
+	if b == nil || len(e.edges[b]) < 2 || e.loops[b] != nil {
+		e.obligGuarded(kind, name, guard, goal, src, cl)
+		return
+	}
+	for _, ed := range e.edges[b] {
+		g := ed.cond
+		if guard != e.en[b] && guard != "true" {
+			g = "(and " + ed.cond + " " + guard + ")"
+		}
+		e.obligGuarded(kind, fmt.Sprintf("%s~from-block%d", name, ed.from.Index), g, goal, src+fmt.Sprintf("   [path through block %d]", ed.from.Index), cl)
+	}
+}
+
 func (e *Enc) count(k string) int {
 	e.counts[k]++
 	return e.counts[k]
@@ -284,6 +310,17 @@ func (e *Enc) havocVal(v ssa.Value) string {
 }
 
 func (e *Enc) cur() *State { return e.out[e.curBlock] }
+
+// cellOf returns the backing array and the cell index of v[i], expressed through the root
+// of a chain of reslices: at(off(root), shift+i). Keeping `at` applied to the root offset makes
+// quantified facts about root[j] fire for cells reached through b[lo:][i].
+func (e *Enc) cellOf(v ssa.Value, idx string) (arr, cell string) {
+	if r, ok := e.sliceRoots[v]; ok {
+		return "(s.arr " + r.root + ")", "(at (s.off " + r.root + ") (+ " + r.shift + " " + idx + "))"
+	}
+	x := e.term(v)
+	return "(s.arr " + x + ")", "(at (s.off " + x + ") " + idx + ")"
+}
 
 // constGlobal returns the symbol of a package-level variable that is never written
 // after package initialisation (errors created by errors.New, lookup tables ...).
@@ -462,6 +499,7 @@ func (e *Enc) storePlace(p *Place, st *State, v string) {
 
 // alloc returns a fresh reference.
 func (e *Enc) alloc(st *State, hint string) string {
+	e.emitBoundFacts(st)
 	r := e.define(e.freshName("new$"+hint), "Int", "(+ "+st.get(allocHeap)+" 1)")
 	st.set(allocHeap, r)
 	// ghost fields (ghost var m map[ref]T default d) of a fresh object hold their default
@@ -482,6 +520,61 @@ func (e *Enc) alloc(st *State, hint string) string {
 		e.fact("(= (select " + st.get(h) + " " + r + ") " + d.Term + ")")
 	}
 	return r
+}
+
+// emitBoundFacts states, for every relevant heap that stores references, that everything stored
+// in its current version is at most the heap's write bound (hence differs from any later
+// allocation). Emitted once per heap version, at allocation sites, where it is needed.
+func (e *Enc) emitBoundFacts(st *State) {
+	if e.relevant == nil {
+		return
+	}
+	if e.boundFactDone == nil {
+		e.boundFactDone = map[string]bool{}
+	}
+	names := make([]string, 0, len(e.relevant))
+	for k := range e.relevant {
+		names = append(names, k)
+	}
+	sort.Strings(names)
+	for _, k := range names {
+		h := e.relevant[k]
+		if h.Elem == 0 {
+			continue
+		}
+		cur := st.get(h)
+		b := st.boundOf(h)
+		key := cur + "|" + b + "|" + e.en[e.curBlock]
+		if e.boundFactDone[key] {
+			continue
+		}
+		e.boundFactDone[key] = true
+		val := func(t string) string {
+			if h.Elem == 2 {
+				return "(s.arr " + t + ")"
+			}
+			return t
+		}
+		e.nquant++
+		qa, qb := fmt.Sprintf("qb!%d", e.nquant), fmt.Sprintf("qc!%d", e.nquant)
+		// only objects that exist now are covered: a later call into body-less code may return
+		// fresh objects whose fields live in this very heap version
+		now := st.get(allocHeap)
+		switch h.Kind {
+		case HField, HCell:
+			sel := "(select " + cur + " " + qa + ")"
+			e.fact(fmt.Sprintf("(forall ((%s Int)) (! (=> (<= %s %s) (<= %s %s)) :pattern (%s)))", qa, qa, now, val(sel), b, sel))
+		case HElem:
+			sel := "(select (select " + cur + " " + qa + ") " + qb + ")"
+			e.fact(fmt.Sprintf("(forall ((%s Int) (%s Int)) (! (=> (<= %s %s) (<= %s %s)) :pattern (%s)))", qa, qb, qa, now, val(sel), b, sel))
+		case HMapV:
+			// key sort from the heap sort string: (Array Int (Array K V))
+			ks := strings.TrimPrefix(h.Sort, "(Array Int (Array ")
+			ks = ks[:strings.Index(ks, " ")]
+			sel := "(select (select " + cur + " " + qa + ") " + qb + ")"
+			e.fact(fmt.Sprintf("(forall ((%s Int) (%s %s)) (! (=> (<= %s %s) (<= %s %s)) :pattern (%s)))", qa, qb, ks, qa, now, val(sel), b, sel))
+		}
+	}
 }
 
 // zeroInit writes the zero value of t at ref.
@@ -534,6 +627,8 @@ func (e *Enc) run() (err error) {
 	e.out = map[*ssa.BasicBlock]*State{}
 	e.edges = map[*ssa.BasicBlock][]edge{}
 	e.escaped = map[string]Heap{}
+	e.sliceRoots = map[ssa.Value]sliceRoot{}
+	e.boundFactDone = nil
 	e.counts = map[string]int{}
 	e.callOrd = map[string]int{}
 	e.params = map[string]TV{}
@@ -763,7 +858,10 @@ func (e *Enc) mergeStates(b *ssa.BasicBlock, edges []edge) *State {
 		for i := len(edges) - 2; i >= 0; i-- {
 			term = "(ite " + edges[i].cond + " " + edges[i].st.get(h) + " " + term + ")"
 		}
-		st.m[k] = e.define(fmt.Sprintf("m$%d$%s", b.Index, k), h.Sort, term)
+		// a declared constant plus a defining equation (not define-fun): solvers expand
+		// define-fun as a macro, and an `ite` inside a quantifier pattern is rejected
+		st.m[k] = e.declare(fmt.Sprintf("m$%d$%s", b.Index, k), h.Sort)
+		e.emit("(assert (= " + st.m[k] + " " + term + "))")
 	}
 	// write bounds: equal on all paths, or the merged allocation counter
 	st.b = map[string]string{}
@@ -875,6 +973,15 @@ func (e *Enc) encodeBlock(b *ssa.BasicBlock) {
 		}
 		sort.Strings(mk)
 		preAlloc := st.get(allocHeap)
+		if false && mods.opaque && e.relevant != nil {
+			for k, h := range e.relevant {
+				if _, in := mods.m[k]; !in && h.Kind != HGhost && h.Kind != HAlloc && !strings.HasPrefix(k, "D$") {
+					mods.add(k, ModFresh)
+					mk = append(mk, k)
+				}
+			}
+			sort.Strings(mk)
+		}
 		for _, k := range mk {
 			h, ok := e.relevantHeap(k)
 			if !ok {
@@ -938,7 +1045,13 @@ func (e *Enc) encodeBlock(b *ssa.BasicBlock) {
 				e.havocVal(p)
 				continue
 			}
-			e.setVal(p, e.sorts().SortOf(p.Type()), entryPhi(p))
+			if len(edges) > 1 {
+				t := e.declare("v$"+p.Name(), e.sorts().SortOf(p.Type()))
+				e.vals[p] = t
+				e.emit("(assert (= " + t + " " + entryPhi(p) + "))")
+			} else {
+				e.setVal(p, e.sorts().SortOf(p.Type()), entryPhi(p))
+			}
 		}
 	}
 
@@ -1009,7 +1122,20 @@ func (e *Enc) doneHeap(r *ssa.Range) Heap {
 // resolver for names at a loop head.
 func (e *Enc) loopResolver(li *loopInfo, st *State, phiVal func(*ssa.Phi) string, from *ssa.BasicBlock) func(string) (TV, bool) {
 	s := e.sorts()
-	return func(name string) (TV, bool) {
+	var self func(name string) (TV, bool)
+	self = func(name string) (TV, bool) {
+		// #iter$N / #done$N / #range$N: the same notions for the enclosing loop with ordinal N
+		if strings.HasPrefix(name, "#") && strings.Contains(name, "$") {
+			parts := strings.SplitN(name, "$", 2)
+			var n int
+			fmt.Sscanf(parts[1], "%d", &n)
+			for _, other := range e.loops {
+				if other.ordinal == n && other != li && other.body[li.head] {
+					return e.loopResolver(other, st, func(p *ssa.Phi) string { return e.term(p) }, from)(parts[0])
+				}
+			}
+			return TV{}, false
+		}
 		if name == "#iter" {
 			for _, in := range li.head.Instrs {
 				if p, ok := in.(*ssa.Phi); ok && p.Comment == "rangeindex" {
@@ -1057,6 +1183,7 @@ func (e *Enc) loopResolver(li *loopInfo, st *State, phiVal func(*ssa.Phi) string
 		}
 		return e.resolveLocal(name, from, st)
 	}
+	return self
 }
 
 // resolveLocal finds the value of a source-level variable visible at the end of
@@ -1164,7 +1291,11 @@ func (e *Enc) checkInvariants(li *loopInfo, st *State, phiVal func(*ssa.Phi) str
 		if where != "entry" {
 			kind = "inv-back"
 		}
-		e.obligGuarded(kind, fmt.Sprintf("loop%d.inv[%s]@%s", li.ordinal, label, where), guard, goal, cl.Src, cl)
+		if where == "entry" {
+			e.obligGuarded(kind, fmt.Sprintf("loop%d.inv[%s]@%s", li.ordinal, label, where), guard, goal, cl.Src, cl)
+		} else {
+			e.obligSplit(kind, fmt.Sprintf("loop%d.inv[%s]@%s", li.ordinal, label, where), guard, goal, cl.Src, cl)
+		}
 	}
 }
 
@@ -1236,19 +1367,8 @@ func (e *Enc) encodeInstr(in ssa.Instruction, st *State) {
 		case *types.Slice:
 			x := e.term(in.X)
 			e.safety("index", in.X.Name(), fmt.Sprintf("(and (>= %s 0) (< %s (s.len %s)))", idx, idx, x), in.Pos())
-			e.places[in] = &Place{kind: 3, heap: s.ElemHeap(u.Elem()), ref: "(s.arr " + x + ")", idx: "(at (s.off " + x + ") " + idx + ")", T: u.Elem()}
-			// indexing a reslice b[lo:hi]: introduce the same cell as an index of b, so that
-			// quantified facts about b[...] find their trigger
-			if sl, ok := in.X.(*ssa.Slice); ok {
-				if _, isSlice := sl.X.Type().Underlying().(*types.Slice); isSlice {
-					lo := "0"
-					if sl.Low != nil {
-						lo = e.term(sl.Low)
-					}
-					bx := e.term(sl.X)
-					e.fact(fmt.Sprintf("(= (at (s.off %s) %s) (at (s.off %s) (+ %s %s)))", x, idx, bx, lo, idx))
-				}
-			}
+			arr, cell := e.cellOf(in.X, idx)
+			e.places[in] = &Place{kind: 3, heap: s.ElemHeap(u.Elem()), ref: arr, idx: cell, T: u.Elem()}
 		case *types.Pointer:
 			a := u.Elem().Underlying().(*types.Array)
 			if _, isPlace := e.places[in.X]; isPlace {
@@ -1319,6 +1439,9 @@ func (e *Enc) encodeInstr(in ssa.Instruction, st *State) {
 		e.setVal(in, "Int", e.term(in.X))
 	case *ssa.ChangeType:
 		e.setVal(in, s.SortOf(in.Type()), e.term(in.X))
+		if r, ok := e.sliceRoots[in.X]; ok {
+			e.sliceRoots[in] = r
+		}
 	case *ssa.Convert:
 		from, to := s.SortOf(in.X.Type()), s.SortOf(in.Type())
 		if from == to && from != "Slice" {
@@ -1664,6 +1787,11 @@ func (e *Enc) encodeSlice(in *ssa.Slice, st *State) {
 			cp = "(- " + e.term(in.Max) + " " + lo + ")"
 		}
 		e.setVal(in, "Slice", fmt.Sprintf("(mkslice (s.arr %s) (+ (s.off %s) %s) (- %s %s) %s)", x, x, lo, hi, lo, cp))
+		if r, ok := e.sliceRoots[in.X]; ok {
+			e.sliceRoots[in] = sliceRoot{root: r.root, shift: "(+ " + r.shift + " " + lo + ")"}
+		} else {
+			e.sliceRoots[in] = sliceRoot{root: x, shift: lo}
+		}
 	case *types.Pointer:
 		a, ok := u.Elem().Underlying().(*types.Array)
 		if !ok {
@@ -1742,7 +1870,7 @@ func (e *Enc) encodeNext(in *ssa.Next, st *State) {
 	pres := "(select " + st.get(hp) + " " + mref + ")"
 	v := e.define("v$"+in.Name()+"$2", s.SortOf(m.Elem()), "(select (select "+st.get(hv)+" "+mref+") "+k+")")
 	e.tuples[in] = []string{ok, k, v}
-	e.fact(fmt.Sprintf("(=> %s (and (select %s %s) (not (select %s %s))))", ok, pres, k, done, k))
+	e.fact(fmt.Sprintf("(=> %s (and (select %s %s) (not (select %s %s)) (not (= %s 0))))", ok, pres, k, done, k, mref))
 	qk := "qk!" + in.Name()
 	e.fact(fmt.Sprintf("(=> (not %s) (forall ((%s %s)) (=> (select %s %s) (select %s %s))))", ok, qk, q(s.SortOf(m.Key())), pres, qk, done, qk))
 	e.typeFacts(v, m.Elem(), st)
